@@ -8,9 +8,11 @@ import (
 	"errors"
 	"fmt"
 	"sort"
+	"strconv"
 	"strings"
 
 	"github.com/ClickHouse/clickhouse-go/v2/lib/driver"
+	"github.com/ClickHouse/clickhouse-go/v2/lib/proto"
 )
 
 type Obj struct {
@@ -220,6 +222,46 @@ type Event struct {
 type Fault struct {
 	N    int    `json:"n"`
 	Kind string `json:"kind"` // before | after
+	// further failing calls of the same start; only code that carries on after an error ever reaches them
+	Also []Fault `json:"also,omitempty"`
+	// what the failing call returns: "" = a plain error value; "ch:<code>:<name>:<message>" = a ClickHouse
+	// server exception (*proto.Exception); "raw:<text>" = an error with exactly this text (driver / network)
+	Err string `json:"err,omitempty"`
+	// > 0: the process is killed before call number DeadFrom (every call from there on fails before its effect)
+	DeadFrom int `json:"dead_from,omitempty"`
+}
+
+func (f *Fault) at(n int) (string, error) {
+	if f == nil {
+		return "", nil
+	}
+	if f.N == n {
+		return f.Kind, errorOf(f.Err)
+	}
+	if f.DeadFrom > 0 && n >= f.DeadFrom {
+		return "before", errInjected
+	}
+	for _, g := range f.Also {
+		if g.N == n {
+			return g.Kind, errorOf(g.Err)
+		}
+	}
+	return "", nil
+}
+
+// errorOf builds the error value a failing call returns (see Fault.Err).
+func errorOf(spec string) error {
+	switch {
+	case strings.HasPrefix(spec, "ch:"):
+		parts := strings.SplitN(spec[3:], ":", 3)
+		if len(parts) == 3 {
+			code, _ := strconv.Atoi(parts[0])
+			return &proto.Exception{Code: int32(code), Name: parts[1], Message: parts[2]}
+		}
+	case strings.HasPrefix(spec, "raw:"):
+		return errors.New(spec[4:])
+	}
+	return errInjected
 }
 
 type Conn struct {
@@ -236,11 +278,11 @@ var errInjected = errors.New("fake clickhouse: injected failure")
 func (c *Conn) call(ev Event, eff func() error) error {
 	n := c.calls
 	c.calls++
-	if c.fault != nil && c.fault.N == n {
-		if c.fault.Kind == "before" {
+	if kind, ferr := c.fault.at(n); kind != "" {
+		if kind == "before" {
 			ev.R = "fb"
 			c.Log = append(c.Log, ev)
-			return errInjected
+			return ferr
 		}
 		if err := eff(); err != nil {
 			ev.R = "err"
@@ -249,7 +291,7 @@ func (c *Conn) call(ev Event, eff func() error) error {
 		}
 		ev.R = "fa"
 		c.Log = append(c.Log, ev)
-		return errInjected
+		return ferr
 	}
 	if err := eff(); err != nil {
 		ev.R = "err"
@@ -375,7 +417,7 @@ func (r *rows) Columns() []string                { return []string{"ver"} }
 func (r *rows) Close() error                     { return nil }
 func (r *rows) Err() error                       { return nil }
 
-func (c *Conn) Contributors() []string                         { return nil }
+func (c *Conn) Contributors() []string                        { return nil }
 func (c *Conn) ServerVersion() (*driver.ServerVersion, error) { return nil, errors.New("unsupported") }
 func (c *Conn) Select(context.Context, any, string, ...any) error {
 	return c.call(Event{T: "o", Text: "Select"}, func() error { return errSem })
@@ -428,4 +470,3 @@ func (d *DB) Final() Final {
 }
 
 var _ driver.Conn = (*Conn)(nil)
-var _ = strings.TrimSpace
